@@ -4389,11 +4389,12 @@ char *transpile_to_c(ASTNode *program, Environment *env, const char *input_file)
     /* Forward declare imported module functions */
     generate_module_function_declarations(sb, program, env, input_file, fn_registry);
     
+    /* Forward declare functions from current program: before the top-level globals, because the
+     * run-time initialiser of a global may call them (let G: int = (f 5)) */
+    generate_program_function_declarations(sb, program, env, fn_registry, tuple_registry);
+
     /* Emit top-level globals */
     generate_toplevel_globals(sb, program, env);
-    
-    /* Forward declare functions from current program */
-    generate_program_function_declarations(sb, program, env, fn_registry, tuple_registry);
 
     /* Generate function implementations */
     generate_function_implementations(sb, program, env, fn_registry, tuple_registry);
